@@ -238,6 +238,7 @@ func (r *Reconciler) updateInstanceWithCurrentRS(logger logr.Logger, now time.Ti
 
 	var updateDaemonsetSpec bool
 	var updateDaemonsetAnnotations bool
+	var selectNodesErr error
 	// If the deployment is in Canary phase, then update status (and spec as needed).
 	if daemonset.Spec.Strategy.Canary != nil {
 		metaNow := metav1.NewTime(now)
@@ -268,8 +269,10 @@ func (r *Reconciler) updateInstanceWithCurrentRS(logger logr.Logger, now time.Ti
 			if nbCanaryPod != len(newDaemonset.Status.Canary.Nodes) {
 				if err = r.selectNodes(logger, daemonset, &newDaemonset.Spec, upToDate, newDaemonset.Status.Canary); err != nil {
 					logger.Error(err, "unable to select Nodes for canary")
-
-					return newDaemonset, reconcile.Result{}, err
+					// Keep going: the status still has to be written. A percentage of canary replicas is resolved against
+					// status.desired, so returning here would keep a stale count (e.g. after nodes were removed) and
+					// make this error permanent. The error is returned once the status is updated.
+					selectNodesErr = err
 				}
 			}
 		} else {
@@ -310,7 +313,7 @@ func (r *Reconciler) updateInstanceWithCurrentRS(logger logr.Logger, now time.Ti
 		newDaemonset = extendedDaemonsetCopy
 	}
 
-	return newDaemonset, reconcile.Result{}, nil
+	return newDaemonset, reconcile.Result{}, selectNodesErr
 }
 
 func (r *Reconciler) selectNodes(logger logr.Logger, daemonset *datadoghqv1alpha1.ExtendedDaemonSet, daemonsetSpec *datadoghqv1alpha1.ExtendedDaemonSetSpec, replicaset *datadoghqv1alpha1.ExtendedDaemonSetReplicaSet, canaryStatus *datadoghqv1alpha1.ExtendedDaemonSetStatusCanary) error {
